@@ -14,6 +14,7 @@
 #include "../common/simfs.h"
 #include "oomd/PluginConstructionContext.h"
 #include "oomd/include/CgroupPath.h"
+#include "oomd/OomdContext.h"
 #include "oomd/util/PluginArgParser.h"
 
 using Oomd::CgroupPath;
@@ -82,6 +83,14 @@ int main(int argc, char** argv) {
       nH++;
       CgroupPath path("/fs", str(c["s"])), pat("/fs", str(c["t"]));
       if (path.hasDescendantWithPrefixMatching(pat) != c["match"].asBool()) fail("hasDescendantWithPrefixMatching", line);
+      // descending by an arbitrary string
+      auto ch = path.getChild(str(c["t"]));
+      CgroupPath joined("/fs", str(c["s"]) + "/" + str(c["t"]));
+      if (ch.relativePathParts() != comps(c["childParts"])) fail("getChild parts", line);
+      if (ch.absolutePath() != str(c["childAbs"])) fail("getChild absolutePath", line);
+      if (ch.isRoot() != c["childRoot"].asBool()) fail("getChild isRoot", line);
+      if (!(ch == joined) || std::hash<CgroupPath>{}(ch) != std::hash<CgroupPath>{}(joined)) fail("getChild equals the joined path", line);
+      if (!ch.isRoot() && !joined.isRoot() && !(ch.getParent() == joined.getParent())) fail("getChild parent", line);
     } else if (kind == "G") {
       nG++;
       Json::StreamWriterBuilder wb; wb["indentation"] = "";
@@ -128,6 +137,17 @@ int main(int argc, char** argv) {
         }
       }
       (void)dup;
+      // the same pattern resolved through OomdContext (what plugins use): exactly the same directories
+      {
+        Oomd::OomdContext octx;
+        std::set<std::string> viaCtx;
+        for (auto& cc : octx.addToCacheAndGet(std::unordered_set<CgroupPath>{pat})) viaCtx.insert(cc.get().cgroup().relativePath());
+        if (viaCtx != got) {
+          std::string g; for (auto& x : viaCtx) g += x + ",";
+          std::string h; for (auto& x : got) h += x + ",";
+          fail("OomdContext resolves {" + g + "} but the pattern resolves to {" + h + "}", line);
+        }
+      }
     }
   }
   std::ofstream out(argv[2]);
